@@ -151,7 +151,9 @@ impl Char for u8 {
     }
 
     fn is_whitespace(&self) -> bool {
-        self.is_ascii_whitespace()
+        // `u8::is_ascii_whitespace` leaves out U+000B VERTICAL TAB, which `char::is_whitespace` (and
+        // `is_newline` below) include: the same ASCII text must not lex differently as `&[u8]` and `&str`
+        self.is_ascii_whitespace() || *self == b'\x0B'
     }
 
     fn is_newline(&self) -> bool {
